@@ -910,17 +910,19 @@ func c11Compare(sent, got []shimMsg, judge func(i int, a, g shimMsg) string) (si
 		return "", ""
 	}
 	key := func(m shimMsg) string { return strconv.Itoa(m.T) + ":" + string(m.D) }
-	ms := map[string]int{}
+	ms, sentKeys := map[string]int{}, map[string]bool{}
 	for _, m := range sent {
 		ms[key(m)]++
+		sentKeys[key(m)] = true
 	}
 	sameMultiset := len(sent) == len(got)
 	dup := ""
 	for i, m := range got {
-		ms[key(m)]--
-		if ms[key(m)] < 0 {
+		k := key(m)
+		ms[k]--
+		if ms[k] < 0 {
 			sameMultiset = false
-			if dup == "" {
+			if dup == "" && sentKeys[k] { // a message that was sent, received more often than sent
 				dup = fmt.Sprintf("received message #%d (%s, %d bytes) more often than it was sent", i, m.kind(), len(m.D))
 			}
 		}
@@ -930,25 +932,19 @@ func c11Compare(sent, got []shimMsg, judge func(i int, a, g shimMsg) string) (si
 		at = n
 	}
 	head := fmt.Sprintf("sent %d messages, received %d; first deviation at #%d", len(sent), len(got), at)
+	parts := strings.SplitN(why, "|", 2)
 	switch {
 	case sameMultiset && firstBad >= 0:
 		return "reordered", head + ": same messages in a different order"
-	case firstBad < 0 && len(got) < len(sent):
+	case len(got) < len(sent):
 		m := sent[at]
-		return "lost", fmt.Sprintf("%s: message #%d (%s, %d bytes) and everything after it never arrived", head, at, m.kind(), len(m.D))
-	case firstBad < 0 && len(got) > len(sent):
-		return "extra", fmt.Sprintf("%s: %d message(s) beyond what was sent; %s", head, len(got)-len(sent), dup)
+		return "lost", fmt.Sprintf("%s: %d message(s) never arrived, the first missing one is #%d (%s, %d bytes)", head, len(sent)-len(got), at, m.kind(), len(m.D))
+	case len(got) > len(sent) && dup != "":
+		return "duplicated", fmt.Sprintf("%s: %s", head, dup)
+	case len(got) > len(sent):
+		return "extra", fmt.Sprintf("%s: %d message(s) beyond what was sent", head, len(got)-len(sent))
 	}
-	parts := strings.SplitN(why, "|", 2)
-	if len(got) != len(sent) || dup != "" {
-		// lost or duplicated in the middle: name it by the count rather than by the payload mismatch it causes
-		if len(got) < len(sent) {
-			return "lost", fmt.Sprintf("%s (%s)", head, parts[len(parts)-1])
-		}
-		if dup != "" {
-			return "duplicated", fmt.Sprintf("%s: %s", head, dup)
-		}
-	}
+	// same count, different content: name it by what the per-message judgement said
 	return parts[0], fmt.Sprintf("%s: %s", head, parts[len(parts)-1])
 }
 
